@@ -48,6 +48,9 @@ func TestVerif(t *testing.T) {
 		verifC10GroupQ(t, r, out)
 	case "C08":
 		verifC08(t, r, out)
+		// "identical to its normal RA except for router lifetime 0": the normal RA of THAT moment —
+		// with deprecated stanzas the final RA carries the countdown of the stop instant
+		verifAdvCountdown(t, r, out)
 		// the advertiser's terminate() is the server's terminator: whether a terminating signal is
 		// visible to the tasks before they see the cancellation is the Serve scenarios' business
 		verifC20(t, r, out)
@@ -71,6 +74,7 @@ func TestVerif(t *testing.T) {
 		verifAdvCountdown(t, r, out)
 	case "C17":
 		verifC17(t, r, out)
+		verifReprepare(t, out)
 	case "C18":
 		verifC18(t, r, out)
 		// "the monitor never fails": its receive loop is the shared listener — no number or pattern
